@@ -48,6 +48,66 @@ func c13Harness(h *gwHarness, c a.Case) explore.Harness {
 	}
 }
 
+// c13ConcHarness: two clients send one operation each to the same gateway at the same time; whatever
+// the interleaving, each receives what the operation is answered with when it is sent alone.
+func c13ConcHarness(h *gwHarness, qs [2]string) explore.Harness {
+	want := map[string]string{}
+	pre := vrt.Run(vrt.Config{Horizon: 400000, NoKeys: true}, func() {
+		for _, q := range qs {
+			h.fed.Fakes.Reset()
+			_, b := h.fed.Post(bodyOf(q, nil), "application/json")
+			var v interface{}
+			json.Unmarshal(b, &v)
+			want[q] = canonResp(v)
+		}
+	})
+	aloneVerdict := verdictOfSched(pre)
+	return func() (func(), func(*vrt.Sched) (string, string)) {
+		h.begin()
+		got := [2]string{}
+		finished := 0
+		run := func() {
+			h.fed.Fakes.Reset()
+			done := vrt.MakeChan[int](2)
+			client := func(i int) func() {
+				return func() {
+					_, b := h.fed.Post(bodyOf(qs[i], nil), "application/json")
+					var v interface{}
+					json.Unmarshal(b, &v)
+					vrt.Touch("results")
+					got[i] = canonResp(v)
+					vrt.Send(done, 1)
+				}
+			}
+			vrt.Explore(true)
+			vrt.GoNamed("client1", client(0))
+			vrt.GoNamed("client2", client(1))
+			vrt.Recv(done)
+			vrt.Recv(done)
+			vrt.Explore(false)
+			finished = 2
+		}
+		check := func(s *vrt.Sched) (string, string) {
+			if aloneVerdict != "" {
+				return "an operation sent alone: " + aloneVerdict, ""
+			}
+			if v := verdictOfSched(s); v != "" {
+				return v, v
+			}
+			if finished != 2 {
+				return "clients did not finish", ""
+			}
+			for i, q := range qs {
+				if got[i] != want[q] {
+					return "an operation sent while another request is in flight is answered differently from the same operation sent alone", got[i]
+				}
+			}
+			return "", "same"
+		}
+		return run, check
+	}
+}
+
 func c13Post(r *explore.Result) string {
 	if len(r.Outcomes) <= 1 {
 		return ""
@@ -229,7 +289,103 @@ func init() {
 					Post:  c13Post,
 				})
 			}
+			// one multipart operation whose upload variable is consumed by two services at the same time
+			{
+				world := "W0+upload-roots+upload-second-service"
+				hu := newGWHarness(world, a.DefaultConfig)
+				n := 0
+				layouts := a.UploadLayouts("quick", true)
+				// the input object with a list of files first
+				sort.SliceStable(layouts, func(i, j int) bool {
+					in := func(l a.UpLayout) bool { return len(l.Ops) == 1 && strings.Contains(l.Ops[0].Q, "uploadIn1(") }
+					return in(layouts[i]) && !in(layouts[j])
+				})
+				for _, l := range layouts {
+					if len(l.Ops) != 1 || len(l.Files) == 0 {
+						continue
+					}
+					q := l.Ops[0].Q
+					if !(strings.Contains(q, "upload1(f: $f)") && strings.Contains(q, "upload(f: $f)")) && !(strings.Contains(q, "uploadIn1(") && strings.Contains(q, "uploadIn(")) {
+						continue
+					}
+					n++
+					if tier == "quick" && n > 3 {
+						break
+					}
+					l := l
+					body, ct := l.Body()
+					mk := func(h *gwHarness) explore.Harness {
+						return func() (func(), func(*vrt.Sched) (string, string)) {
+							h.begin()
+							var resp []byte
+							done := false
+							run := func() {
+								h.fed.Fakes.Reset()
+								vrt.Explore(true)
+								_, resp = h.fed.Post([]byte(body), ct)
+								vrt.Explore(false)
+								done = true
+							}
+							check := func(s *vrt.Sched) (string, string) {
+								if v := verdictOfSched(s); v != "" {
+									return v, v
+								}
+								if !done {
+									return "handler did not return", ""
+								}
+								var v interface{}
+								if err := json.Unmarshal(resp, &v); err != nil {
+									return "response is not JSON", ""
+								}
+								return "", canonResp(v) + "\n--subrequests--\n" + subreqMultiset(h.fed) + "\n" + filesReceived(h.fed)
+							}
+							return run, check
+						}
+					}
+					out = append(out, Scenario{
+						Name:  fmt.Sprintf("%s :: multipart %s", world, l.Desc),
+						Atoms: []string{"multipart", "variable-consumed-by-two-services"},
+						// step-grained like the schedule part of C19: choices between the goroutine subtrees of the two services' steps
+						Opt: explore.Options{Bound: bound, Horizon: 200000, Cache: true, GroupDepth: 1},
+						H:     mk(hu),
+						Fresh: func() explore.Harness { return mk(hu.freshCopy()) },
+						Post:  c13Post,
+					})
+				}
+			}
+			// overlapping client requests: the gateway's own (default) queryer factory and a custom one;
+			// the context of a client request ends when its handler returns
+			pairs := [][2]string{{"{ n1s { name phone } }", "{ n1s { name phone } }"}, {"{ n1s { name phone } }", "{ echo(x: 3) }"}, {"{ n2 { owner { name n2s { title } } } }", "{ n1s { name phone } }"}}
+			if tier == "thorough" {
+				pairs = append(pairs, [2]string{"{ n2 { owner { name n2s { title } } } }", "{ n2 { owner { name n2s { title } } } }"}, [2]string{"mutation { incr(by: 1) }", "{ n1s { name phone } }"})
+			}
+			for _, cfg := range []a.Config{{Merger: "extend", Planner: "plain", DefaultFactory: true}, a.DefaultConfig} {
+				cfg := cfg
+				hc := newGWHarness("W0", cfg)
+				for _, p := range pairs {
+					p := p
+					out = append(out, Scenario{
+						Name:  fmt.Sprintf("W0 :: two clients at the same time: %s || %s PB<=%d %s", p[0], p[1], bound, cfg.String()),
+						Atoms: append([]string{"two-clients"}, cfg.Atoms()...),
+						Opt:   explore.Options{Bound: bound, Horizon: 200000, Cache: true, GroupDepth: 1},
+						H:     c13ConcHarness(hc, p),
+						Fresh: func() explore.Harness { return c13ConcHarness(hc.freshCopy(), p) },
+					})
+				}
+			}
 			return out
 		},
 	}
+}
+
+// filesReceived renders which service received which file parts (name and length), sorted.
+func filesReceived(f *a.Fed) string {
+	var l []string
+	for _, r := range f.Fakes.Reqs {
+		for k, fp := range r.Files {
+			l = append(l, fmt.Sprintf("s%d|%s|%s|%d", r.Svc, k, fp.Name, len(fp.Content)))
+		}
+	}
+	sort.Strings(l)
+	return strings.Join(l, ";")
 }
